@@ -44,6 +44,8 @@ impl<T> InnerQueue<T> {
         }
 
         self.queue.push(t);
+        #[cfg(may_verif)]
+        may_queue::verif::point(may_queue::verif::site::CH_MPMC_SEND_PUSHED, self as *const _ as usize);
         self.sem.post();
         Ok(())
     }
@@ -55,6 +57,8 @@ impl<T> InnerQueue<T> {
             Err(TryRecvError::Disconnected) => return Err(RecvTimeoutError::Disconnected),
         }
 
+        #[cfg(may_verif)]
+        may_queue::verif::point(may_queue::verif::site::CH_MPMC_RECV_EMPTY, self as *const _ as usize);
         match dur {
             None => self.sem.wait(),
             Some(t) => {
@@ -64,6 +68,8 @@ impl<T> InnerQueue<T> {
             }
         }
 
+        #[cfg(may_verif)]
+        may_queue::verif::point(may_queue::verif::site::CH_MPMC_RECV_PERMIT, self as *const _ as usize);
         match self.queue.pop() {
             Some(data) => Ok(data),
             None => match self.tx_ports.load(Ordering::Acquire) {
@@ -97,6 +103,8 @@ impl<T> InnerQueue<T> {
     pub fn drop_tx(&self) {
         match self.tx_ports.fetch_sub(1, Ordering::SeqCst) {
             1 => {
+                #[cfg(may_verif)]
+                may_queue::verif::point(may_queue::verif::site::CH_MPMC_DROPTX_SUBBED, self as *const _ as usize);
                 // there is no tx port any more
                 // should tell all the waited rx to come back
                 while self.sem.get_value() == 0 {
@@ -115,6 +123,8 @@ impl<T> InnerQueue<T> {
     pub fn drop_rx(&self) {
         match self.rx_ports.fetch_sub(1, Ordering::SeqCst) {
             1 => {
+                #[cfg(may_verif)]
+                may_queue::verif::point(may_queue::verif::site::CH_MPMC_DROPRX_SUBBED, self as *const _ as usize);
                 // there is no receiver any more, clear the data
                 while self.queue.pop().is_some() {}
             }
